@@ -57,6 +57,9 @@ Normal ==
          [] i.cl = "strstart" -> p' = [p EXCEPT !.ip = i.nx, !.s = @ + 1]
          [] i.cl = "strend"   -> IF p.s = 0 THEN Stuck("string finished without a builder")
                                  ELSE p' = [p EXCEPT !.ip = i.nx, !.s = @ - 1]
+         \* a piece can only be added to a string / sequence that is being built in this function
+         [] i.cl = "strpush"  -> IF p.s = 0 THEN Stuck("string piece pushed without a builder") ELSE Goto(i.nx)
+         [] i.cl = "seqpush"  -> IF p.q = 0 THEN Stuck("sequence element pushed without a builder") ELSE Goto(i.nx)
          [] i.cl = "trystart" -> p' = [p EXCEPT !.ip = i.nx, !.tries = Append(@, [c |-> i.tg, q |-> p.q, s |-> p.s])]
          [] i.cl = "tryend"   -> p' = [p EXCEPT !.ip = i.nx,
                                                 !.tries = IF @ = <<>> THEN @ ELSE SubSeq(@, 1, Len(@) - 1)]
